@@ -25,7 +25,7 @@ C09_SHAPES = {
     "assert": ("assert c;\n", ""),
     "lamcall": ("{ p }:\nf ", ""),
 }
-C09_PATHS = ["@u", "@z", "@@u", "@@z", "@@@u", "@@@@u", "@@@@@u", "@u.k", "@w", "@v", "@@v", "@t"]
+C09_PATHS = ["@u", "@z", "@@u", "@@z", "@@@u", "@@@@u", "@@@@@u", "@u.k", "@w", "@v", "@@v", "@t", "@a", "@@a"]  # @a: a name of the body, not of any layer
 C09_VALUES = ["9", "{ k = 1; }"]
 
 
